@@ -24,6 +24,7 @@ POISON = {
     "empty_side": [">>CCO", "CCO>>", ">>"],
     "empty_string": ["", " "],
     "missing": [None],
+    "empty_record": ["<EMPTY-RECORD>"],   # a row without any value: {} in dict/JSON sources, a blank line in CSV
 }
 
 
@@ -36,7 +37,7 @@ def gen_plan(base_seed, i, tier):
     kinds = []
     for _ in range(npoison):
         kind = rng.choice(sorted(POISON))
-        if kind == "missing" and source == "list":
+        if kind in ("missing", "empty_record") and source in ("list", "cli"):
             kind = "empty_string"
         val = rng.choice(POISON[kind])
         pos = rng.randint(0, len(rows))
@@ -49,7 +50,7 @@ def gen_plan(base_seed, i, tier):
     items = rows
     passthrough = []
     if source != "list":
-        items = [{"reaction": r, "tag": "t%d-%04x" % (k, rng.getrandbits(16)), "n": k * 7 + 1} for k, r in enumerate(rows)]
+        items = [({} if r == "<EMPTY-RECORD>" else {"reaction": r, "tag": "t%d-%04x" % (k, rng.getrandbits(16)), "n": k * 7 + 1}) for k, r in enumerate(rows)]
         passthrough = ["tag", "n"]
     cfg = common.gen_config(rng, len(rows), thresholds=(0,))
     cfg["batch_size"] = rng.choice([None, 1, 2, 3, len(rows), len(rows) + 1, rng.randint(1, len(rows) + 1)])
@@ -66,7 +67,7 @@ def gen_plan(base_seed, i, tier):
 
 
 def _rx(item):
-    return item["reaction"] if isinstance(item, dict) else item
+    return item.get("reaction") if isinstance(item, dict) else item
 
 
 def execute(plan):
